@@ -1533,7 +1533,9 @@ func analysePerIteration(as AnalysisSpec, progs []*Program, cs *Contracts, funcs
 			case n > 1:
 				o.Result, o.Why = "failed", fmt.Sprintf("an iteration performs %s %d times", callee, n)
 			case n == 0 && len(zero) == 0:
-				o.Result, o.Why = "failed", "an iteration does not perform " + callee
+				// only an iteration that can actually happen counts (a defensive branch on a value that
+				// the container invariants rule out is not one)
+				check(pe, "false", "an iteration does not perform "+callee)
 			case n == 0:
 				check(pe, evalAny(zero), "an iteration skips "+callee+" although none of the stated reasons holds")
 			case n == 1:
